@@ -44,6 +44,10 @@ def insertSorted (a : String) : List String → List String
   | [] => [a]
   | b :: r => if a < b then a :: b :: r else if a == b then b :: r else b :: insertSorted a r
 
+/-- FNV-1a, 32 bit (the harness shortens long output lines the same way) -/
+def fnv32 (s : String) : UInt32 :=
+  s.toUTF8.foldl (fun h b => (h ^^^ b.toUInt32) * 16777619) 2166136261
+
 def run (t : List String) : String :=
   match t with
   | ["fmt", src, layout, p, i, u, k, r] =>
@@ -57,7 +61,8 @@ def run (t : List String) : String :=
                                 resolve := fun n => (rs.find? (·.1 == n)).map (·.2) }
       let out := rewrite env imps
       let keys := out.foldl (fun acc s => insertSorted (aliasStr s.alias ++ "~" ++ s.path) acc) []
-      if keys.isEmpty then "ok -" else "ok " ++ ",".intercalate keys
+      let line := if keys.isEmpty then "ok -" else "ok " ++ ",".intercalate keys
+      if line.utf8ByteSize > 250 then s!"ok #{keys.length}:{fnv32 line}" else line
     | _, _, _, _, _ => "err:badop"
   | _ => "err:badop"
 
